@@ -1,14 +1,14 @@
-import FrappyProofs.Lemmas.StateMachineCount
+import FrappyProofs.Lemmas.StateMachineInv
 import FrappyModel.Spec.C14
 import FrappyModel.Generated.C14
 /-
 C14 — property theorems (nothing but property theorems, statements and their non-vacuity examples).
 
 Proved for every configuration, every program (arbitrary functions of the history), every oracle of
-concurrent requests and every operation sequence: `cycle_calls_bounded`, `cycle_never_raises`.
-The remaining clauses are kept as full statements (`…_statement`); they are checked by the Lean monitors on
-every history of the model and of the implementation that the harness produces, not proved (see design_notes/C14.md).
-`busy_until_finished` is refuted for preempted `start_machine` by a proved counterexample.
+concurrent requests (at every read of `next_task`) and every operation sequence; the clauses over histories come
+from one coupling invariant between the machine and the observer (`Lemmas/StateMachineInv.lean`).
+`busy_until_finished` holds for requests that are atomic with respect to `cycle` and is refuted for a preempted
+`start_machine` by a proved counterexample.
 -/
 namespace Frappy.Props.C14
 open Frappy.SM Frappy.States Frappy.Spec.C14
@@ -46,18 +46,60 @@ theorem cycle_never_raises (cfg : Cfg) (P : Prog) (σ : SM) (ops : List Op) (h :
     simp [List.mem_filter, hm, isRaised]
   omega
 
-/-! ### the clauses that are stated, monitored, and not proved -/
+/-! ### the clauses over histories: every configuration, program, oracle of concurrent requests, operation sequence -/
 
 /-- histories of the model: any configuration, program, oracle, operation sequence from the initial machine -/
 def history (cfg : Cfg) (P : Prog) (idle : Status) (ops : List Op) : List Ev := (run cfg P (SM.initial idle) ops).trace
 
-def cycle_calls_bounded_statement : Prop :=
-  ∀ cfg P idle ops, CycleBounded idle cfg.maxloops (history cfg P idle ops)
-def init_flag_exact_statement : Prop := ∀ cfg P idle ops, InitFlagExact idle (history cfg P idle ops)
-def cleanup_exactly_once_statement : Prop := ∀ cfg P idle ops, CleanupExactlyOnce idle (history cfg P idle ops)
-def cleanup_not_interrupted_statement : Prop := ∀ cfg P idle ops, CleanupNotInterrupted idle (history cfg P idle ops)
-def stop_makes_inactive_statement : Prop := ∀ cfg P idle ops, StopMakesInactive idle (history cfg P idle ops)
-def last_start_wins_statement : Prop := ∀ cfg P idle ops, LastStartWins idle (history cfg P idle ops)
+theorem okAll_parts {ml : Nat} {o : Obs} {e : Ev} (h : okAll ml o e = true) :
+    okInit o e = true ∧ okCleanupOnce o e = true ∧ okCleanupNotInterrupted o e = true ∧ okStopInactive o e = true ∧
+    okLastStart o e = true ∧ okPickedUp o e = true ∧ okBound ml o e = true ∧ okNoRaise o e = true := by
+  simp only [okAll, Bool.and_eq_true] at h
+  obtain ⟨⟨⟨⟨⟨⟨⟨a, b⟩, c⟩, d⟩, e'⟩, f⟩, g⟩, i⟩ := h
+  exact ⟨a, b, c, d, e', f, g, i⟩
+
+/-- positional form of the call bound: at every call of a state function, fewer than `2·maxloops` calls were made
+since the cycle began -/
+theorem cycle_calls_bounded_positional (cfg : Cfg) (P : Prog) (idle : Status) (ops : List Op) :
+    CycleBounded idle cfg.maxloops (history cfg P idle ops) :=
+  (run_good cfg P idle ops).mono fun _ _ h => (okAll_parts h).2.2.2.2.2.2.1
+
+/-- `raised` never occurs, as a clause over histories -/
+theorem cycle_never_raises_positional (cfg : Cfg) (P : Prog) (idle : Status) (ops : List Op) :
+    NeverRaises idle (history cfg P idle ops) :=
+  (run_good cfg P idle ops).mono fun _ _ h => (okAll_parts h).2.2.2.2.2.2.2
+
+/-- The first call of a state after a transition — and only that — sees the init flag, and the function called is
+the state entered most recently. -/
+theorem init_flag_exact (cfg : Cfg) (P : Prog) (idle : Status) (ops : List Op) :
+    InitFlagExact idle (history cfg P idle ops) :=
+  (run_good cfg P idle ops).mono fun _ _ h => (okAll_parts h).1
+
+/-- A run interrupted by stop, restart or error calls its cleanup exactly once, at once; a cleanup function is
+never called otherwise (not in an uninterrupted run, not twice, not another run's). -/
+theorem cleanup_exactly_once (cfg : Cfg) (P : Prog) (idle : Status) (ops : List Op) :
+    CleanupExactlyOnce idle (history cfg P idle ops) :=
+  (run_good cfg P idle ops).mono fun _ _ h => (okAll_parts h).2.1
+
+/-- A cleanup sequence in progress is cut short only by an error, never by stop or start, and requests are taken
+only by the inactive machine. -/
+theorem cleanup_not_interrupted (cfg : Cfg) (P : Prog) (idle : Status) (ops : List Op) :
+    CleanupNotInterrupted idle (history cfg P idle ops) :=
+  (run_good cfg P idle ops).mono fun _ _ h => (okAll_parts h).2.2.1
+
+/-- After stop the machine is inactive at the end of the first cycle that saw no further request and leaves no
+cleanup sequence in progress. -/
+theorem stop_makes_inactive (cfg : Cfg) (P : Prog) (idle : Status) (ops : List Op) :
+    StopMakesInactive idle (history cfg P idle ops) :=
+  (run_good cfg P idle ops).mono fun _ _ h => (okAll_parts h).2.2.2.1
+
+/-- What the machine takes is the most recent request; a start taken is entered next, before any state call, with
+the requested cleanup and exactly the requested attribute update; no request is left waiting at the end of a cycle
+that saw no further request and leaves no cleanup sequence in progress. -/
+theorem last_start_wins (cfg : Cfg) (P : Prog) (idle : Status) (ops : List Op) :
+    LastStartWins idle (history cfg P idle ops) :=
+  ⟨(run_good cfg P idle ops).mono fun _ _ h => (okAll_parts h).2.2.2.2.1,
+   (run_good cfg P idle ops).mono fun _ _ h => (okAll_parts h).2.2.2.2.2.1⟩
 
 /-- the requests a program / an operation sequence issues keep to busy status codes -/
 def busyReq (r : Rules) : Req → Prop
